@@ -10,7 +10,8 @@ Private helpers are reached through `getattr`: when one has been renamed/removed
 import random
 import numpy as np
 from fractions import Fraction
-from harness.core import quiet, q, qv, qm, pv, pm, close
+from harness.core import quiet, q, qv, qm, pv, pm
+from harness.props.c19 import close      # the margin-recording comparison
 
 
 def wrap(k, n):
